@@ -63,9 +63,7 @@ func (s *streamWS) SendMsg(v interface{}) error {
 	//ctx := s.ctx
 
 	cur := reply.ProtoReflect()
-	for _, fd := range s.method.resp {
-		cur = cur.Mutable(fd).Message()
-	}
+	cur = mutableMessage(cur, s.method.resp)
 	msg := cur.Interface()
 
 	// TODO: contentType check?
@@ -134,9 +132,7 @@ func (s *streamWS) RecvMsg(m interface{}) error {
 
 	if s.method.hasBody {
 		cur := args.ProtoReflect()
-		for _, fd := range s.method.body {
-			cur = cur.Mutable(fd).Message()
-		}
+		cur = mutableMessage(cur, s.method.body)
 
 		msg := cur.Interface()
 
